@@ -249,6 +249,15 @@ theorem reportFold_shut : ∀ (ks : List Key) (r : H × List Obs), r.1.shut = tr
   · simp only; split <;> split <;> simp
   · simp
 
+@[simp] theorem untrust_shut (h : H) (k : Key) : (untrust h k).shut = h.shut := by simp [untrust]
+@[simp] theorem cancelConn_shut (h : H) (k : Key) : (cancelConn h k).1.shut = h.shut := by
+  unfold cancelConn; split <;> simp
+theorem cancelConn_no_dial (h : H) (k kd : Key) : Obs.dial kd ∉ (cancelConn h k).2 := by
+  unfold cancelConn; split
+  · simp only [List.mem_append, List.mem_cons, reduceCtorEq, List.mem_nil_iff, or_false, false_or]
+    split <;> simp
+  · simp
+
 theorem reannounce_no_dial (h : H) (k : Key) : Obs.dial k ∉ reannounce h := by
   unfold reannounce; split
   · simp
@@ -271,13 +280,7 @@ theorem C10_no_dial_after_shutdown (h : H) (hs : h.shut = true) (e : Ev) (k : Ke
   | disconnect s => simp only [step]; exact ⟨by split <;> simp, hs⟩
   | cancel s =>
     simp only [step]
-    split
-    · next c hc =>
-      constructor
-      · simp only [List.mem_append, List.mem_cons, reduceCtorEq, List.mem_nil_iff, or_false, false_or]
-        split <;> simp
-      · simp [hs]
-    · exact ⟨by simp, by simp [hs]⟩
+    exact ⟨cancelConn_no_dial _ _ k, by simp [hs]⟩
   | pairingDetail s => simp only [step]; split <;> simp [hs]
   | setAuto b => simp [step, hs]
   | shutdown => simp [step]
@@ -327,5 +330,803 @@ theorem taskFire_get (h : H) (k k' : Key) (c : Nat) :
   · split
     · simp only [get_set]; split <;> simp_all [Per.detail]
     · split <;> (simp only [get_set]; split <;> simp_all [Per.detail])
+
+/-- what the dial guard reads: the shut flag and, of the key, trust, pairing detail and connection -/
+def core (h : H) (k : Key) : Bool × Bool × (Nat × Bool) × Option Conn :=
+  (h.shut, (h.get k).trusted, (h.get k).detail, (h.get k).conn)
+
+theorem taskFire_shut_eq (h : H) (k : Key) (c : Nat) : (taskFire h k c).1.shut = h.shut := by
+  unfold taskFire; simp only; split
+  · simp
+  · split
+    · simp
+    · split <;> simp
+
+theorem taskFire_core (h : H) (k k' : Key) (c : Nat) : core (taskFire h k c).1 k' = core h k' := by
+  have := taskFire_get h k k' c
+  simp only [core, this.1, this.2.1, this.2.2, taskFire_shut_eq]
+
+theorem taskFold_core (k k' : Key) : ∀ (tasks : List Nat) (r : H × List Obs), core (tasks.foldl (taskFold k) r).1 k' = core r.1 k'
+  | [], r => rfl
+  | c :: cs, r => by
+    simp only [List.foldl_cons]
+    rw [taskFold_core k k' cs]
+    simp only [taskFold]
+    exact taskFire_core r.1 k k' c
+
+theorem core_set_sched (h : H) (k k' : Key) (t : List Nat) (r : Bool) (c : Option Nat) :
+    core (h.set k { h.get k with tasks := t, running := r, counter := c }) k' = core h k' := by
+  simp only [core, get_set, set_shut]; split <;> simp_all [Per.detail]
+
+theorem core_touch (h : H) (k k' : Key) : core (h.touch k) k' = core h k' := by
+  simp only [core, get_touch, touch_shut]
+
+/-- the guard, transferred to a state with the same core -/
+theorem guard_transfer (h h' : H) (k kd : Key) (c : Nat) (hc : core h' kd = core h kd)
+    (hd : Obs.dial kd ∈ (taskFire h' k c).2) :
+    ((h.get kd).trusted = true ∨ (h.get kd).detail.1 = csQueued) ∧ h.shut = false := by
+  obtain ⟨hk, ht, hsh, _, _⟩ := C10_task_guard h' k kd c hd
+  subst hk
+  simp only [core, Prod.mk.injEq] at hc
+  rw [← hc.1, ← hc.2.1, ← hc.2.2.1]
+  exact ⟨ht, hsh⟩
+
+abbrev Intent (h : H) (kd : Key) : Prop :=
+  ((h.get kd).trusted = true ∨ (h.get kd).detail.1 = csQueued) ∧ h.shut = false
+
+theorem taskFold_dial (h0 : H) (k kd : Key) : ∀ (tasks : List Nat) (r : H × List Obs),
+    core r.1 kd = core h0 kd → (Obs.dial kd ∈ r.2 → Intent h0 kd) →
+    Obs.dial kd ∈ (tasks.foldl (taskFold k) r).2 → Intent h0 kd
+  | [], r, _, ha, hd => ha hd
+  | c :: cs, r, hc, ha, hd => by
+    simp only [List.foldl_cons] at hd
+    refine taskFold_dial h0 k kd cs (taskFold k r c) ?_ ?_ hd
+    · simp only [taskFold]; rw [taskFire_core]; exact hc
+    · intro hm
+      simp only [taskFold, List.mem_append] at hm
+      rcases hm with hm | hm
+      · exact ha hm
+      · exact guard_transfer h0 r.1 k kd c hc hm
+
+theorem fireTasks_dial (h0 : H) (kd : Key) : ∀ (l : List (Key × Per)) (h : H) (acc : List Obs),
+    core h kd = core h0 kd → (Obs.dial kd ∈ acc → Intent h0 kd) →
+    Obs.dial kd ∈ (fireTasks l h acc).2 → Intent h0 kd
+  | [], h, acc, _, ha, hd => ha hd
+  | (k, _) :: rest, h, acc, hc, ha, hd => by
+    unfold fireTasks at hd
+    have hc1 : core (h.set k { h.get k with tasks := [] }) kd = core h0 kd := by
+      have := core_set_sched h k kd [] (h.get k).running (h.get k).counter
+      simp only at this
+      rw [← hc, ← this]
+    refine fireTasks_dial h0 kd rest _ _ ?_ ?_ hd
+    · rw [taskFold_core]; exact hc1
+    · intro hm
+      exact taskFold_dial h0 k kd (h.get k).tasks _ hc1 ha hm
+
+theorem reportOne_core (r : H × List Obs) (k kd : Key) : core (reportOne r k).1 kd = core r.1 kd := by
+  unfold reportOne
+  split
+  · exact core_touch _ _ _
+  · split
+    · exact core_touch _ _ _
+    · split
+      · exact core_touch _ _ _
+      · simp only
+        have h1 := core_set_sched (r.1.touch k) k kd ((r.1.touch k).get k).tasks true (some (nextCounter ((r.1.touch k).get k).counter))
+        simp only at h1
+        split
+        · rw [taskFire_core, h1, core_touch]
+        · have h2 := core_set_sched ((r.1.touch k).set k { (r.1.touch k).get k with running := true, counter := some (nextCounter ((r.1.touch k).get k).counter) }) k kd
+            ((((r.1.touch k).set k { (r.1.touch k).get k with running := true, counter := some (nextCounter ((r.1.touch k).get k).counter) }).get k).tasks ++ [nextCounter ((r.1.touch k).get k).counter])
+            (((r.1.touch k).set k { (r.1.touch k).get k with running := true, counter := some (nextCounter ((r.1.touch k).get k).counter) }).get k).running
+            (((r.1.touch k).set k { (r.1.touch k).get k with running := true, counter := some (nextCounter ((r.1.touch k).get k).counter) }).get k).counter
+          simp only at h2
+          rw [h2, h1, core_touch]
+
+theorem reportOne_dial (h0 : H) (r : H × List Obs) (k kd : Key) (hc : core r.1 kd = core h0 kd)
+    (ha : Obs.dial kd ∈ r.2 → Intent h0 kd) (hd : Obs.dial kd ∈ (reportOne r k).2) : Intent h0 kd := by
+  unfold reportOne at hd
+  split at hd
+  · exact ha hd
+  · split at hd
+    · exact ha hd
+    · split at hd
+      · exact ha hd
+      · simp only at hd
+        split at hd
+        · simp only [List.mem_append] at hd
+          rcases hd with hd | hd
+          · exact ha hd
+          · refine guard_transfer h0 _ k kd _ ?_ hd
+            have h1 := core_set_sched (r.1.touch k) k kd ((r.1.touch k).get k).tasks true (some (nextCounter ((r.1.touch k).get k).counter))
+            simp only at h1
+            rw [h1, core_touch]; exact hc
+        · exact ha hd
+
+theorem reportFold_dial (h0 : H) (kd : Key) : ∀ (ks : List Key) (r : H × List Obs),
+    core r.1 kd = core h0 kd → (Obs.dial kd ∈ r.2 → Intent h0 kd) →
+    Obs.dial kd ∈ (ks.foldl reportOne r).2 → Intent h0 kd
+  | [], r, _, ha, hd => ha hd
+  | k :: ks, r, hc, ha, hd => by
+    simp only [List.foldl_cons] at hd
+    refine reportFold_dial h0 kd ks (reportOne r k) ?_ ?_ hd
+    · rw [reportOne_core]; exact hc
+    · exact reportOne_dial h0 r k kd hc ha
+
+/-- **C10 (dial only registered)**: whatever the event — an mDNS report, sleeping dial tasks waking up, any
+    user call or connection callback — a dial attempt to a SKI is made only if, when the event began,
+    that SKI was trusted (registered, or its handshake reached hello-ok) or queued for pairing by
+    `RegisterRemoteSKI`, and the hub was not shut down. -/
+theorem C10_dial_only_registered (h : H) (e : Ev) (k : Key) (hd : Obs.dial k ∈ (step h e).2) : Intent h k := by
+  cases e with
+  | report ks =>
+    simp only [step, List.mem_append, List.mem_singleton, reduceCtorEq, or_false] at hd
+    exact reportFold_dial h k ks (h, []) rfl (by simp) hd
+  | tick =>
+    simp only [step] at hd
+    have := deliver_obs true _ _ _ k hd
+    exact fireTasks_dial h k h.per h [] rfl (by simp) this
+  | settle =>
+    simp only [step] at hd
+    have := deliver_obs false _ _ _ k hd
+    simp at this
+  | start => simp [step] at hd
+  | register s =>
+    simp only [step] at hd
+    split at hd
+    · exact absurd hd (reannounce_no_dial _ k)
+    · split at hd <;> simp at hd
+  | unregister s => simp only [step] at hd; split at hd <;> simp at hd
+  | disconnect s => simp only [step] at hd; split at hd <;> simp at hd
+  | cancel s =>
+    simp only [step] at hd
+    exact absurd hd (cancelConn_no_dial _ _ k)
+  | pairingDetail s => simp only [step] at hd; split at hd <;> simp at hd
+  | setAuto b => simp [step] at hd
+  | shutdown => simp [step] at hd
+  | connected k' id st => simp [step] at hd
+  | connSetState k' st => simp only [step] at hd; split at hd <;> simp at hd
+  | connUpdate k' st err => simp [step] at hd
+  | connClosed k' id hsEnd =>
+    simp only [step, List.mem_append, List.mem_singleton, reduceCtorEq, false_or] at hd
+    split at hd
+    · simp at hd
+    · exact absurd hd (reannounce_no_dial _ k)
+
+theorem setDetailState_get (h : H) (k k' : Key) (st : Nat) :
+    (h.setDetailState k st).get k' = if k' = k then (h.get k).setDetailState st else h.get k' := by
+  simp [H.setDetailState, get_set]
+
+theorem Per.setDetailState_facts (p : Per) (st : Nat) :
+    (p.setDetailState st).trusted = p.trusted ∧ (p.setDetailState st).counter = p.counter ∧
+    (p.setDetailState st).conn = p.conn ∧ (p.setDetailState st).detail = (st, p.cur.2) ∧
+    (p.setDetailState st).running = p.running ∧ (p.setDetailState st).tasks = p.tasks := by
+  unfold Per.setDetailState; split <;> simp [Per.detail]
+
+theorem notify_get_eq (h : H) (k k' : Key) (d : Bool) :
+    (h.notify k d).get k' = (if (h.get k).obj = 0 then h.setDetailState k (h.detail k).1 else h).get k' := by
+  unfold H.notify
+  rfl
+
+theorem notify_get (h : H) (k k' : Key) (d : Bool) :
+    ((h.notify k d).get k').trusted = (h.get k').trusted ∧ ((h.notify k d).get k').counter = (h.get k').counter ∧
+    ((h.notify k d).get k').conn = (h.get k').conn ∧ ((h.notify k d).get k').detail = (h.get k').detail := by
+  rw [notify_get_eq]
+  split
+  · rw [setDetailState_get]
+    split
+    · next hk =>
+      subst hk
+      have := Per.setDetailState_facts (h.get k') (h.detail k').1
+      simp only [H.detail, Per.detail] at this ⊢
+      simp [this.1, this.2.1, this.2.2.1, this.2.2.2.1]
+    · simp
+  · simp
+
+theorem untrust_get (h : H) (k : Key) :
+    ((untrust h k).get k).trusted = false ∧ ((untrust h k).get k).counter = (h.get k).counter ∧
+    ((untrust h k).get k).conn = (h.get k).conn ∧ ((untrust h k).get k).detail.1 = csNone := by
+  unfold untrust
+  have n := notify_get ((h.set k { h.get k with trusted := false }).setDetailState k csNone) k k false
+  rw [n.1, n.2.1, n.2.2.1, n.2.2.2]
+  simp only [setDetailState_get, if_true, get_set]
+  have f := Per.setDetailState_facts ({ h.get k with trusted := false }) csNone
+  exact ⟨by rw [f.1], by rw [f.2.1], by rw [f.2.2.1], by rw [f.2.2.2.1]⟩
+
+/-- **C10 (unregister)**: after `UnregisterRemoteSKI` with any spelling, the SKI is untrusted, its attempt
+    counter is gone, its pairing state is "none" (so by `C10_dial_only_registered` no dial task for it can
+    dial), and the registered connection is told to close with code 4500. -/
+theorem C10_unregister_effect (h : H) (s : Str) :
+    ((step h (.unregister s)).1.get (normalize s)).trusted = false ∧
+    ((step h (.unregister s)).1.get (normalize s)).counter = none ∧
+    ((step h (.unregister s)).1.get (normalize s)).detail.1 = csNone ∧
+    (∀ c, (h.get (normalize s)).conn = some c → Obs.close c.id true 4500 ∈ (step h (.unregister s)).2) := by
+  simp only [step]
+  have u := untrust_get ((h.touch (normalize s)).set (normalize s) { (h.touch (normalize s)).get (normalize s) with counter := none }) (normalize s)
+  refine ⟨u.1, ?_, u.2.2.2, ?_⟩
+  · rw [u.2.1]; simp [get_set]
+  · intro c hc; rw [hc]; simp
+
+theorem cancelConn_get (h : H) (k : Key) :
+    ((cancelConn h k).1.get k).counter = (h.get k).counter ∧ ((cancelConn h k).1.get k).trusted = (h.get k).trusted := by
+  unfold cancelConn; split <;> simp [get_set]
+
+/-- **C10 (cancel)**: `CancelPairingWithSKI` with any spelling leaves the SKI untrusted with pairing state
+    "none" and no attempt counter; a registered connection is told to abort, and unless its handshake has
+    thereby (or already) ended it is closed with 4452 — it cannot complete later. -/
+theorem C10_cancel_effect (h : H) (s : Str) :
+    ((step h (.cancel s)).1.get (normalize s)).trusted = false ∧
+    ((step h (.cancel s)).1.get (normalize s)).counter = none ∧
+    ((step h (.cancel s)).1.get (normalize s)).detail.1 = csNone ∧
+    (∀ c, (h.get (normalize s)).conn = some c →
+      Obs.abort c.id ∈ (step h (.cancel s)).2 ∧
+      (handshakeEnded (if c.st = 8 || c.st = 11 then 15 else c.st) = false →
+        Obs.close c.id false 4452 ∈ (step h (.cancel s)).2)) := by
+  simp only [step]
+  have u := untrust_get (cancelConn ((h.touch (normalize s)).set (normalize s) { (h.touch (normalize s)).get (normalize s) with counter := none }) (normalize s)).1 (normalize s)
+  have cg := cancelConn_get ((h.touch (normalize s)).set (normalize s) { (h.touch (normalize s)).get (normalize s) with counter := none }) (normalize s)
+  refine ⟨u.1, ?_, u.2.2.2, ?_⟩
+  · rw [u.2.1, cg.1]; simp [get_set]
+  · intro c hc
+    have hc' : (((h.touch (normalize s)).set (normalize s) { (h.touch (normalize s)).get (normalize s) with counter := none }).get (normalize s)).conn = some c := by
+      simp [get_set, get_touch, hc]
+    unfold cancelConn
+    simp only [hc']
+    refine ⟨by simp, ?_⟩
+    intro he
+    simp only [Bool.or_eq_true, decide_eq_true_eq] at he
+    simp [he]
+
+theorem fireTasks_core (kd : Key) : ∀ (l : List (Key × Per)) (h : H) (acc : List Obs), core (fireTasks l h acc).1 kd = core h kd
+  | [], h, acc => rfl
+  | (k, _) :: rest, h, acc => by
+    unfold fireTasks
+    rw [fireTasks_core kd rest, taskFold_core]
+    have := core_set_sched h k kd [] (h.get k).running (h.get k).counter
+    simp only at this
+    exact this
+
+theorem reportFold_core (kd : Key) : ∀ (ks : List Key) (r : H × List Obs), core (ks.foldl reportOne r).1 kd = core r.1 kd
+  | [], r => rfl
+  | k :: ks, r => by
+    simp only [List.foldl_cons]
+    rw [reportFold_core kd ks, reportOne_core]
+
+theorem deliver_core (all : Bool) (kd : Key) : ∀ (fuel : Nat) (h : H) (acc : List Obs), core (deliver all fuel h acc).1 kd = core h kd
+  | 0, h, acc => rfl
+  | fuel + 1, h, acc => by
+    unfold deliver
+    split
+    · rfl
+    · split
+      · rfl
+      · rw [deliver_core all kd fuel]
+        simp only [core, get_set, set_shut]
+        split <;> simp_all [Per.detail, H.get]
+
+theorem untrust_trusted_other (h : H) (k k' : Key) (hk : k' ≠ k) : ((untrust h k).get k').trusted = (h.get k').trusted := by
+  unfold untrust
+  have n := notify_get ((h.set k { h.get k with trusted := false }).setDetailState k csNone) k k' false
+  rw [n.1]
+  simp [setDetailState_get, get_set, hk]
+
+theorem cancelConn_trusted (h : H) (k k' : Key) : ((cancelConn h k).1.get k').trusted = (h.get k').trusted := by
+  unfold cancelConn; split
+  · simp only [get_set]; split <;> simp_all
+  · rfl
+
+theorem setConnSt_trusted (h : H) (k k' : Key) (st : Nat) : ((setConnSt h k st).get k').trusted = (h.get k').trusted := by
+  unfold setConnSt; split
+  · simp only [get_set]; split <;> simp_all
+  · rfl
+
+theorem updateDetail_trusted (h : H) (k k' : Key) (ps : Nat) (err : Bool) :
+    ((updateDetail h k ps err).get k').trusted = (h.get k').trusted := by
+  unfold updateDetail; split
+  · show ((h.set k ((h.get k).newDetail ps err)).get k').trusted = _
+    simp only [get_set]; split <;> simp_all [Per.newDetail]
+  · rfl
+
+theorem connUpdateH_trusted (h : H) (k k' : Key) (st : Nat) (err : Bool)
+    (ht : ((connUpdateH h k st err).get k').trusted = true) : (h.get k').trusted = true ∨ (k' = k ∧ st = 13) := by
+  unfold connUpdateH at ht
+  rw [updateDetail_trusted] at ht
+  unfold trustOnHelloOk at ht
+  split at ht
+  · next h13 =>
+    by_cases hk : k' = k
+    · exact Or.inr ⟨hk, h13⟩
+    · left
+      rw [get_set_other _ _ _ _ hk, setConnSt_trusted, get_touch] at ht
+      exact ht
+  · left
+    rw [setConnSt_trusted, get_touch] at ht
+    exact ht
+
+theorem connClosedH_trusted (h : H) (k k' : Key) (id : Nat) (e : Bool) :
+    ((connClosedH h k id e).get k').trusted = (h.get k').trusted := by
+  unfold connClosedH
+  split
+  · simp only
+    split <;> split
+    all_goals (try simp only [get_set, get_touch])
+    all_goals (try ((repeat' split) <;> simp_all [get_touch]))
+  · exact congrArg Per.trusted (get_touch h k k')
+
+/-- **C10 (sources of trust)**: a SKI becomes trusted only through `RegisterRemoteSKI` (any spelling of it) or
+    through a connection of that SKI reporting hello-ok — which by C01 a connection does only if the SKI was
+    trusted when it decided, auto-accept was on, the hub itself dialled it, or the user approved. Nothing
+    mDNS announces, no dial task, no notification and no other SKI's events can make it trusted. -/
+theorem C10_trust_sources (h : H) (e : Ev) (k : Key) (ht : ((step h e).1.get k).trusted = true) :
+    (h.get k).trusted = true ∨ (∃ s, e = .register s ∧ normalize s = k) ∨ (∃ err, e = .connUpdate k 13 err) := by
+  cases e with
+  | start => left; simpa [step, H.get] using ht
+  | register s =>
+    by_cases hk : normalize s = k
+    · exact Or.inr (Or.inl ⟨s, rfl, hk⟩)
+    · left
+      simp only [step] at ht
+      have hk' : k ≠ normalize s := fun e => hk e.symm
+      split at ht
+      · simpa [get_set, hk', get_touch] using ht
+      · split at ht
+        · simpa [get_set, hk', get_touch] using ht
+        · have n := notify_get (((h.touch (normalize s)).set (normalize s) { (h.touch (normalize s)).get (normalize s) with trusted := true }).setDetailState (normalize s) csQueued) (normalize s) k false
+          rw [n.1] at ht
+          simpa [setDetailState_get, get_set, hk', get_touch] using ht
+  | unregister s =>
+    left
+    simp only [step] at ht
+    by_cases hk : k = normalize s
+    · subst hk
+      have u := untrust_get ((h.touch (normalize s)).set (normalize s) { (h.touch (normalize s)).get (normalize s) with counter := none }) (normalize s)
+      rw [u.1] at ht; cases ht
+    · unfold untrust at ht
+      have n := notify_get ((((h.touch (normalize s)).set (normalize s) { (h.touch (normalize s)).get (normalize s) with counter := none }).set (normalize s)
+        { (((h.touch (normalize s)).set (normalize s) { (h.touch (normalize s)).get (normalize s) with counter := none }).get (normalize s)) with trusted := false }).setDetailState (normalize s) csNone) (normalize s) k false
+      rw [n.1] at ht
+      simpa [setDetailState_get, get_set, hk, get_touch] using ht
+  | disconnect s => left; simpa [step] using ht
+  | cancel s =>
+    left
+    simp only [step] at ht
+    by_cases hk : k = normalize s
+    · subst hk
+      have u := untrust_get (cancelConn ((h.touch (normalize s)).set (normalize s) { (h.touch (normalize s)).get (normalize s) with counter := none }) (normalize s)).1 (normalize s)
+      rw [u.1] at ht; cases ht
+    · rw [untrust_trusted_other _ _ _ hk, cancelConn_trusted] at ht
+      simpa [get_set, hk, get_touch] using ht
+  | pairingDetail s => left; simp only [step] at ht; split at ht <;> simpa [get_touch] using ht
+  | setAuto b => left; simpa [step, H.get] using ht
+  | shutdown => left; simpa [step, H.get] using ht
+  | report ks =>
+    left
+    simp only [step] at ht
+    have := reportFold_core k ks (h, [])
+    simp only [core, Prod.mk.injEq] at this
+    rw [← this.2.1]; exact ht
+  | settle =>
+    left
+    simp only [step] at ht
+    have := deliver_core false k (h.queue.length + 1) h []
+    simp only [core, Prod.mk.injEq] at this
+    rw [← this.2.1]; exact ht
+  | tick =>
+    left
+    simp only [step] at ht
+    have h1 := deliver_core true k ((fireTasks h.per h []).1.queue.length + 1) (fireTasks h.per h []).1 (fireTasks h.per h []).2
+    have h2 := fireTasks_core k h.per h []
+    simp only [core, Prod.mk.injEq] at h1 h2
+    rw [← h2.2.1, ← h1.2.1]; exact ht
+  | connected k' id st => left; simp only [step] at ht; by_cases hk : k = k' <;> simpa [get_set, hk, get_touch] using ht
+  | connSetState k' st =>
+    left; simp only [step] at ht
+    split at ht
+    · by_cases hk : k = k' <;> simpa [get_set, hk] using ht
+    · exact ht
+  | connUpdate k' st err =>
+    simp only [step] at ht
+    rcases connUpdateH_trusted h k' k st err ht with h1 | ⟨hk, h13⟩
+    · exact Or.inl h1
+    · subst hk; subst h13; exact Or.inr (Or.inr ⟨err, rfl⟩)
+  | connClosed k' id hsEnd =>
+    left
+    simp only [step] at ht
+    rw [connClosedH_trusted] at ht
+    exact ht
+/-- **C11 (registry)**: when a connection reports its end, the hub forgets the registered connection of that
+    SKI exactly if it is the very connection that ended — an old (double) connection closing never removes
+    the entry of its successor — no other SKI's entry is touched, and the application is told
+    `RemoteSKIDisconnected` exactly once for this end. -/
+theorem C11_registry (h : H) (k : Key) (id : Nat) (e : Bool) :
+    ((step h (.connClosed k id e)).1.get k).conn =
+      (match (h.get k).conn with
+       | some c => if c.id = id then none else some c
+       | none => none) ∧
+    (∀ k', k' ≠ k → ((step h (.connClosed k id e)).1.get k').conn = (h.get k').conn) ∧
+    ((step h (.connClosed k id e)).2.filter (· == Obs.disconnected k)).length = 1 := by
+  simp only [step]
+  refine ⟨?_, ?_, ?_⟩
+  · unfold connClosedH
+    rw [get_touch]
+    cases hc : (h.get k).conn with
+    | none => simp [get_touch, hc]
+    | some c =>
+      simp only
+      by_cases hid : c.id = id <;> cases e <;> simp [hid, get_set, get_touch, hc]
+  · intro k' hk
+    unfold connClosedH
+    rw [get_touch]
+    cases hc : (h.get k).conn with
+    | none => simp [get_touch]
+    | some c =>
+      simp only
+      by_cases hid : c.id = id <;> cases e <;> simp [hid, get_set, get_touch, hk]
+  · have hr : ∀ hh : H, (reannounce hh).filter (· == Obs.disconnected k) = [] := by
+      intro hh; unfold reannounce; split
+      · rfl
+      · split <;> simp
+    simp only [List.filter_append, List.filter_cons, beq_self_eq_true, if_true, List.filter_nil, List.length_append,
+      List.length_cons, List.length_nil]
+    split
+    · simp
+    · rw [hr]; simp
+/-! ### C18: pairing notifications converge on the hub's pairing detail -/
+
+def pendingFor (q : List Note) (k : Key) : List Note := q.filter (·.key = k)
+
+def J (h : H) (k : Key) : Prop :=
+  match (pendingFor h.queue k).getLast? with
+  | some n => n.obj = (h.get k).obj
+  | none => (h.get k).lastNote = some (h.get k).cur ∨ ((h.get k).lastNote = none ∧ (h.get k).cur = (csNone, false))
+
+def dv (p : Per) : Nat × (Nat × Bool) × Option (Nat × Bool) := (p.obj, p.cur, p.lastNote)
+
+/-- `h'` shows key `k` the same pending notifications, detail object and last delivery as `h` -/
+def BenAt (h h' : H) (k : Key) : Prop := pendingFor h'.queue k = pendingFor h.queue k ∧ dv (h'.get k) = dv (h.get k)
+
+theorem BenAt.refl (h : H) (k : Key) : BenAt h h k := ⟨rfl, rfl⟩
+theorem BenAt.trans {h1 h2 h3 : H} {k : Key} (a : BenAt h1 h2 k) (b : BenAt h2 h3 k) : BenAt h1 h3 k :=
+  ⟨b.1.trans a.1, b.2.trans a.2⟩
+
+theorem J_ben {h h' : H} {k : Key} (b : BenAt h h' k) (hj : J h k) : J h' k := by
+  obtain ⟨b1, b2⟩ := b
+  simp only [dv, Prod.mk.injEq] at b2
+  unfold J at hj ⊢
+  rw [b1, b2.1, b2.2.1, b2.2.2]
+  exact hj
+
+theorem ben_set (h : H) (k k' : Key) (p : Per) (hp : k' = k → dv p = dv (h.get k)) : BenAt h (h.set k p) k' := by
+  refine ⟨by simp, ?_⟩
+  rw [get_set]
+  split
+  · next e => rw [hp e, e]
+  · rfl
+
+theorem ben_touch (h : H) (k k' : Key) : BenAt h (h.touch k) k' := ⟨by simp, by rw [get_touch]⟩
+
+theorem taskFire_ben (h : H) (k k' : Key) (c : Nat) : BenAt h (taskFire h k c).1 k' := by
+  have : (taskFire h k c).1 = h.set k { h.get k with running := false } := by
+    unfold taskFire; simp only; split
+    · rfl
+    · split
+      · rfl
+      · split <;> rfl
+  rw [this]
+  exact ben_set _ _ _ _ (fun _ => rfl)
+
+theorem taskFold_ben (k k' : Key) : ∀ (tasks : List Nat) (r : H × List Obs), BenAt r.1 (tasks.foldl (taskFold k) r).1 k'
+  | [], r => BenAt.refl _ _
+  | c :: rest, r => by
+    simp only [List.foldl_cons]
+    exact (taskFire_ben r.1 k k' c).trans (taskFold_ben k k' rest (taskFold k r c))
+
+theorem fireTasks_ben (k' : Key) : ∀ (l : List (Key × Per)) (h : H) (acc : List Obs), BenAt h (fireTasks l h acc).1 k'
+  | [], h, acc => BenAt.refl _ _
+  | (k, _) :: rest, h, acc => by
+    unfold fireTasks
+    refine BenAt.trans ?_ (fireTasks_ben k' rest _ _)
+    exact (ben_set h k k' { h.get k with tasks := [] } (fun _ => rfl)).trans (taskFold_ben k k' _ _)
+
+theorem reportOne_ben (r : H × List Obs) (k k' : Key) : BenAt r.1 (reportOne r k).1 k' := by
+  unfold reportOne
+  split
+  · exact ben_touch _ _ _
+  · split
+    · exact ben_touch _ _ _
+    · split
+      · exact ben_touch _ _ _
+      · simp only
+        have b1 := ben_touch r.1 k k'
+        have b2 := ben_set (r.1.touch k) k k' { (r.1.touch k).get k with running := true, counter := some (nextCounter ((r.1.touch k).get k).counter) } (fun _ => rfl)
+        split
+        · exact (b1.trans b2).trans (taskFire_ben _ _ _ _)
+        · refine (b1.trans b2).trans (ben_set _ _ _ _ (fun _ => rfl))
+
+theorem reportFold_ben (k' : Key) : ∀ (ks : List Key) (r : H × List Obs), BenAt r.1 (ks.foldl reportOne r).1 k'
+  | [], r => BenAt.refl _ _
+  | k :: ks, r => by
+    simp only [List.foldl_cons]
+    exact (reportOne_ben r k k').trans (reportFold_ben k' ks _)
+
+theorem cancelConn_ben (h : H) (k k' : Key) : BenAt h (cancelConn h k).1 k' := by
+  unfold cancelConn; split
+  · exact ben_set _ _ _ _ (fun _ => rfl)
+  · exact BenAt.refl _ _
+
+theorem setConnSt_ben (h : H) (k k' : Key) (st : Nat) : BenAt h (setConnSt h k st) k' := by
+  unfold setConnSt; split
+  · exact ben_set _ _ _ _ (fun _ => rfl)
+  · exact BenAt.refl _ _
+
+theorem trustOnHelloOk_ben (h : H) (k k' : Key) (st : Nat) : BenAt h (trustOnHelloOk h k st) k' := by
+  unfold trustOnHelloOk; split
+  · exact ben_set _ _ _ _ (fun _ => rfl)
+  · exact BenAt.refl _ _
+
+theorem connClosedH_ben (h : H) (k k' : Key) (id : Nat) (e : Bool) : BenAt h (connClosedH h k id e) k' := by
+  unfold connClosedH
+  have t := ben_touch h k k'
+  split
+  · next c hc =>
+    simp only
+    have b1 : BenAt h (if c.id = id then (h.touch k).set k { (h.touch k).get k with conn := none } else h.touch k) k' := by
+      split
+      · exact t.trans (ben_set _ _ _ _ (fun _ => rfl))
+      · exact t
+    split
+    · exact b1.trans (ben_set _ _ _ _ (fun _ => rfl))
+    · exact b1
+  · exact t
+
+
+theorem J_append {h : H} {k : Key} (q : List Note) (d : Bool)
+    (hq : h.queue = q ++ [{ key := k, obj := (h.get k).obj, delayed := d }]) : J h k := by
+  unfold J
+  rw [hq]
+  simp [pendingFor, List.filter_append]
+
+theorem pendingFor_append_other (q : List Note) (n : Note) (k : Key) (hk : n.key ≠ k) :
+    pendingFor (q ++ [n]) k = pendingFor q k := by
+  simp [pendingFor, List.filter_append, hk]
+
+theorem setDetailState_ben_other (h : H) (k k' : Key) (st : Nat) (hk : k' ≠ k) : BenAt h (h.setDetailState k st) k' :=
+  ben_set _ _ _ _ (fun e => absurd e hk)
+
+theorem notify_J (h : H) (k : Key) (d : Bool) : J (h.notify k d) k := by
+  unfold H.notify
+  exact J_append _ d rfl
+
+theorem notify_ben_other (h : H) (k k' : Key) (d : Bool) (hk : k' ≠ k) : BenAt h (h.notify k d) k' := by
+  have hk' : k ≠ k' := fun e => hk e.symm
+  unfold H.notify
+  split
+  · refine ⟨?_, ?_⟩
+    · simp only
+      rw [pendingFor_append_other _ _ _ hk']
+      exact (setDetailState_ben_other h k k' _ hk).1
+    · exact (setDetailState_ben_other h k k' _ hk).2
+  · refine ⟨?_, rfl⟩
+    simp only
+    rw [pendingFor_append_other _ _ _ hk']
+
+theorem untrust_J (h : H) (k : Key) : J (untrust h k) k := notify_J _ _ _
+
+theorem untrust_ben_other (h : H) (k k' : Key) (hk : k' ≠ k) : BenAt h (untrust h k) k' := by
+  unfold untrust
+  exact ((ben_set h k k' _ (fun e => absurd e hk)).trans (setDetailState_ben_other _ k k' _ hk)).trans
+    (notify_ben_other _ k k' false hk)
+
+theorem updateDetail_J (h : H) (k : Key) (ps : Nat) (err : Bool) (hj : J h k) : J (updateDetail h k ps err) k := by
+  unfold updateDetail
+  split
+  · refine J_append h.queue true ?_
+    show h.queue ++ _ = h.queue ++ [{ key := k, obj := ((h.set k ((h.get k).newDetail ps err)).get k).obj, delayed := true }]
+    rw [get_set_same]
+    rfl
+  · exact hj
+
+theorem updateDetail_ben_other (h : H) (k k' : Key) (ps : Nat) (err : Bool) (hk : k' ≠ k) :
+    BenAt h (updateDetail h k ps err) k' := by
+  have hk' : k ≠ k' := fun e => hk e.symm
+  unfold updateDetail
+  split
+  · refine ⟨?_, ?_⟩
+    · simp only
+      rw [pendingFor_append_other _ _ _ hk']
+    · show dv ((h.set k ((h.get k).newDetail ps err)).get k') = _
+      rw [get_set_other _ _ _ _ hk]
+  · exact BenAt.refl _ _
+
+theorem deliver_J (all : Bool) : ∀ (fuel : Nat) (h : H) (acc : List Obs), (∀ k, J h k) → ∀ k, J (deliver all fuel h acc).1 k
+  | 0, h, acc, hj, k => hj k
+  | fuel + 1, h, acc, hj, k => by
+    unfold deliver
+    split
+    · exact hj k
+    · next n rest hq =>
+      split
+      · exact hj k
+      · refine deliver_J all fuel _ _ ?_ k
+        intro k2
+        have hj2 := hj k2
+        by_cases hk : k2 = n.key
+        · subst hk
+          unfold J at hj2 ⊢
+          simp only [set_queue, get_set_same]
+          rw [hq] at hj2
+          have hp : pendingFor (n :: rest) n.key = n :: pendingFor rest n.key := by simp [pendingFor]
+          rw [hp] at hj2
+          cases hpr : pendingFor rest n.key with
+          | nil =>
+            rw [hpr] at hj2
+            simp only [List.getLast?_singleton] at hj2
+            simp only [List.getLast?_nil]
+            left
+            show some (((({ h with queue := rest } : H).get n.key)).objVal n.obj) = some (({ h with queue := rest } : H).get n.key).cur
+            simp only [Per.objVal]
+            rw [if_pos]
+            exact hj2
+          | cons m ms =>
+            rw [hpr] at hj2
+            rw [List.getLast?_cons_cons] at hj2
+            exact hj2
+        · have b : BenAt h (({ h with queue := rest } : H).set n.key
+              { ({ h with queue := rest } : H).get n.key with lastNote := some ((({ h with queue := rest } : H).get n.key).objVal n.obj) }) k2 := by
+            refine ⟨?_, ?_⟩
+            · simp only [set_queue]
+              rw [hq]
+              have : n.key ≠ k2 := fun e => hk e.symm
+              simp [pendingFor, this]
+            · rw [get_set_other _ _ _ _ hk]; rfl
+          exact J_ben b hj2
+
+
+theorem prep_ben (h : H) (k0 k : Key) :
+    BenAt h ((h.touch k0).set k0 { (h.touch k0).get k0 with counter := none }) k :=
+  (ben_touch h k0 k).trans (ben_set (h.touch k0) k0 k _ (fun _ => rfl))
+
+/-- the notification invariant is preserved by every hub event -/
+theorem J_step (h : H) (e : Ev) (hj : ∀ k, J h k) : ∀ k, J (step h e).1 k := by
+  intro k
+  cases e with
+  | start => exact J_ben (h := h) ⟨rfl, rfl⟩ (hj k)
+  | register s =>
+    simp only [step]
+    have t := ben_touch h (normalize s) k
+    split
+    · exact J_ben (t.trans (ben_set _ _ _ _ (fun _ => rfl))) (hj k)
+    · split
+      · exact J_ben (t.trans (ben_set _ _ _ _ (fun _ => rfl))) (hj k)
+      · by_cases hk : k = normalize s
+        · subst hk; exact notify_J _ _ _
+        · have b1 := t.trans (ben_set (h.touch (normalize s)) (normalize s) k
+            { (h.touch (normalize s)).get (normalize s) with trusted := true } (fun _ => rfl))
+          have b2 := b1.trans (setDetailState_ben_other _ (normalize s) k csQueued hk)
+          exact J_ben (b2.trans (notify_ben_other _ (normalize s) k false hk)) (hj k)
+  | unregister s =>
+    simp only [step]
+    by_cases hk : k = normalize s
+    · subst hk; exact untrust_J _ _
+    · exact J_ben ((prep_ben h (normalize s) k).trans (untrust_ben_other _ (normalize s) k hk)) (hj k)
+  | disconnect s => exact hj k
+  | cancel s =>
+    simp only [step]
+    by_cases hk : k = normalize s
+    · subst hk; exact untrust_J _ _
+    · exact J_ben (((prep_ben h (normalize s) k).trans (cancelConn_ben _ (normalize s) k)).trans
+        (untrust_ben_other _ (normalize s) k hk)) (hj k)
+  | pairingDetail s =>
+    simp only [step]
+    split <;> exact J_ben (ben_touch h (normalize s) k) (hj k)
+  | setAuto b => exact J_ben (h := h) ⟨rfl, rfl⟩ (hj k)
+  | shutdown => exact J_ben (h := h) ⟨rfl, rfl⟩ (hj k)
+  | report ks => exact J_ben (reportFold_ben k ks (h, [])) (hj k)
+  | settle => exact deliver_J false _ h [] hj k
+  | tick =>
+    simp only [step]
+    exact deliver_J true _ _ _ (fun k2 => J_ben (fireTasks_ben k2 h.per h []) (hj k2)) k
+  | connected k' id st =>
+    exact J_ben ((ben_touch h k' k).trans (ben_set _ _ _ _ (fun _ => rfl))) (hj k)
+  | connSetState k' st =>
+    simp only [step]
+    split
+    · exact J_ben (ben_set _ _ _ _ (fun _ => rfl)) (hj k)
+    · exact hj k
+  | connUpdate k' st err =>
+    simp only [step, connUpdateH]
+    have b := ((ben_touch h k' k).trans (setConnSt_ben _ k' k st)).trans (trustOnHelloOk_ben _ k' k st)
+    by_cases hk : k = k'
+    · subst hk; exact updateDetail_J _ _ _ _ (J_ben b (hj k))
+    · exact J_ben (b.trans (updateDetail_ben_other _ _ _ _ _ hk)) (hj k)
+  | connClosed k' id hsEnd => exact J_ben (connClosedH_ben h k' k id hsEnd) (hj k)
+
+theorem J_init (k : Key) : J {} k := by
+  simp [J, pendingFor, H.get, csNone]
+
+theorem J_run_aux : ∀ (evs : List Ev) (r : H × List (List Obs)), (∀ k, J r.1 k) →
+    ∀ k, J (evs.foldl (fun r e => let x := step r.1 e; (x.1, r.2 ++ [x.2])) r).1 k
+  | [], r, hj => hj
+  | e :: evs, r, hj => by
+    simp only [List.foldl_cons]
+    exact J_run_aux evs _ (J_step r.1 e hj)
+
+/-- `deliver true` with enough fuel empties the queue -/
+theorem deliver_all_empties : ∀ (fuel : Nat) (h : H) (acc : List Obs), h.queue.length < fuel →
+    (deliver true fuel h acc).1.queue = []
+  | 0, h, acc, hf => by omega
+  | fuel + 1, h, acc, hf => by
+    unfold deliver
+    split
+    · next hq => exact hq
+    · next n rest hq =>
+      simp only [Bool.not_true, Bool.and_false, Bool.false_eq_true, if_false]
+      refine deliver_all_empties fuel _ _ ?_
+      simp only [set_queue]
+      rw [hq] at hf
+      simp only [List.length_cons] at hf
+      omega
+
+/-- **C18 (eventual consistency of pairing notifications)**: in every reachable hub state and for every SKI, either
+    a notification for the *current* detail object is still queued (and will be delivered after every earlier one),
+    or the last `ServicePairingDetailUpdate` the application received for the SKI carried exactly the detail
+    `PairingDetailForSki` reports now — or it never received one and the detail is still the initial one. -/
+theorem C18_notifications_converge (evs : List Ev) (k : Key) : J (run evs).1 k :=
+  J_run_aux evs ({}, []) J_init k
+
+/-- once the delayed notifications have run (a `tick`), nothing is pending and the application's view of every
+    SKI is the hub's -/
+theorem C18_quiescent (evs : List Ev) (k : Key) :
+    let h := (step (run evs).1 .tick).1
+    h.queue = [] ∧ ((h.get k).lastNote = some (h.get k).cur ∨ ((h.get k).lastNote = none ∧ (h.get k).cur = (csNone, false))) := by
+  have hj := J_step (run evs).1 .tick (fun k => C18_notifications_converge evs k) k
+  have he : (step (run evs).1 .tick).1.queue = [] := by
+    simp only [step]
+    exact deliver_all_empties _ _ _ (by omega)
+  refine ⟨he, ?_⟩
+  unfold J at hj
+  rw [he] at hj
+  simpa [pendingFor] using hj
+
+
+/-- what delivering the notification `n` shows the application in state `h` -/
+def noteObs (h : H) (n : Note) : Obs :=
+  .pairing n.key ((h.get n.key).objVal n.obj).1 ((h.get n.key).objVal n.obj).2
+
+theorem noteObs_set_lastNote (h : H) (k : Key) (v : Option (Nat × Bool)) (q : List Note) (m : Note) :
+    noteObs (({ h with queue := q } : H).set k { ({ h with queue := q } : H).get k with lastNote := v }) m = noteObs h m := by
+  unfold noteObs
+  rw [get_set]
+  split
+  · next e => rw [e]; rfl
+  · rfl
+
+/-- **C18 (order)**: the notifications are delivered in the order in which the detail changes were queued, each
+    showing the value of the detail object it was queued for -/
+theorem C18_fifo : ∀ (fuel : Nat) (h : H) (acc : List Obs), h.queue.length < fuel →
+    (deliver true fuel h acc).2 = acc ++ h.queue.map (noteObs h)
+  | 0, h, acc, hf => by omega
+  | fuel + 1, h, acc, hf => by
+    unfold deliver
+    split
+    · next hq => simp [hq]
+    · next n rest hq =>
+      simp only [Bool.not_true, Bool.and_false, Bool.false_eq_true, if_false]
+      rw [C18_fifo fuel]
+      · simp only [set_queue, hq, List.map_cons, List.append_assoc, List.singleton_append]
+        congr 2
+        apply List.map_congr_left
+        intro m _
+        exact noteObs_set_lastNote h n.key _ rest m
+      · simp only [set_queue]
+        rw [hq] at hf
+        simp only [List.length_cons] at hf
+        omega
+
+
+/-- non-vacuity: register → notification queued; tick → delivered; the invariant's two branches are both met -/
+example : let h := (run [.start, .register [0x41], .settle]).1
+    h.queue = [] ∧ (h.get [0x61]).lastNote = some (csQueued, false) := by decide +kernel
+example : ((run [.start, .connected [0x61] 1 8, .connUpdate [0x61] 8 false]).1.queue).length = 1 := by decide +kernel
 
 end ShipVerif.Hub
